@@ -122,7 +122,7 @@ def main():
         "setup_cmd": "./tools/setup.sh",
         "hooks": {"guard": "PYSPIKE_VERIF", "enable": "PYSPIKE_VERIF=1 in the environment of the check (pyspike is imported from /repo's working tree, nothing is built)",
                   "baseline_off_cmd": "cd /repo && env -u PYSPIKE_VERIF /venv/bin/python -m pytest -ra -q -p no:cacheprovider --timeout=900 --continue-on-collection-errors",
-                  "source_commits": [], "add_only": True},
+                  "source_commits": ["f98c187"], "add_only": True},
         "engines": [
             {"name": "A pair-scan", "path": "spec/IsiScan.tla spec/SpikeScan.tla spec/SyncScan.tla spec/SingleScan.tla harness/checkers.py", "serves_properties": ["C01", "C02", "C03", "C04"], "kind_free_text": "TLC exhaustive over all train pairs x keywords, JSON export of terminal states, replay into python backend, transliterated .pyx kernels and public API"},
             {"name": "C session", "path": "spec/Multi.tla spec/Reconcile.tla harness/checkers_multi.py", "serves_properties": ["C04", "C05", "C06", "C08", "C13", "C14", "C15", "C17", "C18"], "kind_free_text": "TLC enumerates lists x entry point x index selection x interval x keywords and computes the expected result the code's way (pair generation, recursive halving, transcribed adds); states replayed through pyspike.* in every call form under both backends"},
